@@ -7,6 +7,7 @@ writes landing on the main screen) and compares with the snapshots predicted by 
 The oracle is before/after equality of the raw observations around every context (property text).
 """
 import fcntl
+import struct
 import io
 import os
 import signal
@@ -29,7 +30,7 @@ PROP = "C12"
 MODULES = ["Curtsies.Properties.C12"]
 RULE = ("scripts = trees of contexts (Input with every sigint_event x disable_terminal_start_stop, FullscreenWindow(hide_cursor), "
         "CursorAwareWindow(hide_cursor, keep_last_line), Cbreak, Nonblocking, Termmode(attrs)), nested up to depth 3 and repeated, "
-        "bodies of <= 4 operations (requests returning without/with a read, raising after the read, interrupted by a real SIGINT "
+        "bodies of <= 4 operations (renders on terminals resized to 0x0 / 0 rows / 0 columns / normal; requests returning without/with a read, raising after the read, interrupted by a real SIGINT "
         "while blocked in select; renders; trigger creation incl. threadsafe) truncated by an exception at any position; initial "
         "tty attributes (ECHO/ICANON/ISIG/IEXTEN/IXON/ICRNL/OPOST toggles, VMIN/VTIME/VSTOP/VSTART), initial O_NONBLOCK/O_APPEND, "
         "initial SIGINT handler (default_int_handler, SIG_DFL, SIG_IGN, user function), re-use of the same object after an environment "
@@ -110,9 +111,19 @@ class PtyIn:
         return os.read(self.fd, 1).decode("latin-1")
 
 
+SIZES = [(0, 0), (0, 12), (4, 0), (4, 12)]     # terminal sizes (rows, columns) of the `sz<k>` steps; a fresh pty is 0x0
+
+
 class FailingOut(io.StringIO):
-    """window output stream whose n-th next write can be made to raise (a closed pipe, a full disk, a dead ssh)"""
+    """window output stream whose n-th next write can be made to raise (a closed pipe, a full disk, a dead ssh);
+    its fileno is the pty's, so that the windows ask the pty for the terminal size"""
     fail_in = None
+    fd = None
+
+    def fileno(self):
+        if self.fd is None:
+            raise io.UnsupportedOperation("fileno")
+        return self.fd
 
     def write(self, text):
         if self.fail_in is not None:
@@ -138,9 +149,7 @@ class OsShim:
         return r, w
 
 
-class FW(FullscreenWindow):
-    width = property(lambda self: 12)
-    height = property(lambda self: 4)
+FW = FullscreenWindow      # sizes come from the pty (TIOCSWINSZ), as in real use
 
 
 def open_fds():
@@ -244,9 +253,12 @@ def gen_body(r, depth, inp_se, hstate, main, budget, canon_risk=False, has_win=F
             else:
                 toks.append("q0")
         elif x < 0.77:
+            if has_win and r.random() < 0.3:
+                toks.append("sz%d" % r.randrange(len(SIZES)))      # render on a resized terminal (0x0, 0xW, Hx0, normal)
+                budget.append("resized")
             toks.append("r")
         elif x < 0.8:
-            if has_win:
+            if has_win and "resized" not in budget:
                 return toks + ["R%d" % r.choice([0, 1, 1, 2]), "#raised"]     # a write of the render raises
             toks.append("r")
         elif x < 0.9 and in_input:
@@ -337,6 +349,15 @@ def corpus_cases():
             out.append(dict(base, main=1, sig0="d", toks=[top, "r", "R%d" % k, ")"]))
     out.append(dict(base, main=1, sig0="d", toks=["(F0", "(I00", "R1", ")", ")"]))
     out.append(dict(base, main=1, sig0="d", toks=["(I00", "(C00", "R1", ")", ")"]))
+    # renders (0..2) on terminals of every size, in both window classes, both hide_cursor values, left normally / by exception:
+    # the cursor must be visible after leaving (seeded C12-r4m1: an early return on a 0-size terminal skips normal_cursor)
+    for top in ("(F0", "(F1", "(C00", "(C10", "(C01", "(C11"):
+        for k in range(len(SIZES)):
+            for body in ([], ["r"], ["r", "r"]):
+                for tail in ([], ["!"]):
+                    out.append(dict(base, main=1, sig0="d", toks=[top, "sz%d" % k] + body + tail + [")"]))
+        out.append(dict(base, main=1, sig0="d", toks=[top, "r", "sz0", "r", "sz3", ")"]))
+        out.append(dict(base, main=0, sig0="d", toks=[top, "sz0", "r", ")"]))
     # D18 and D26 at the same exit (each clause is judged on its own)
     out.append(dict(base, main=1, sig0="d", toks=["(F1", "(I00", "(F0", "q1", "r", "T", ")", "q0", "q0", ")", "(C10", "r", ")", ")"]))
     return out
@@ -409,6 +430,8 @@ class Runner:
         self.fl0 = fcntl.fcntl(self.slave, fcntl.F_GETFL)
         self.in_stream = PtyIn(self.slave)
         self.out = FailingOut()
+        self.out.fd = self.slave
+        fcntl.ioctl(self.slave, termios.TIOCSWINSZ, struct.pack("HHHH", 4, 12, 0, 0))
         self.user_pipe = None
         self.old_sig = signal.getsignal(signal.SIGINT)
         self.old_wake = None
@@ -571,6 +594,10 @@ class Runner:
                     win.render_to_terminal([fmtstr("ab")])
                 finally:
                     self.out.fail_in = None
+            return
+        if tok.startswith("sz"):       # the terminal is resized (possibly to nothing)
+            rows, cols = SIZES[int(tok[2:])]
+            fcntl.ioctl(self.slave, termios.TIOCSWINSZ, struct.pack("HHHH", rows, cols, 0, 0))
             return
         if tok.startswith("et"):       # somebody else changes the tty attributes
             termios.tcsetattr(self.slave, termios.TCSANOW, apply_env_tty(termios.tcgetattr(self.slave), int(tok[2:])))
